@@ -189,8 +189,11 @@ structure CondSpec (R : Type) where
   static : List R
   /-- `(c, d)`: `d` is declared iff `c` is cached at the moment of (re)preparation -/
   cond : List (R × R)
+  /-- the preparation FAILS (the preparer returns a non-Ok outcome, which is cached like a result and
+      declares nothing) while one of these resources is cached -/
+  failWhen : List R := []
 
 def condDecl (sp : CondSpec R) (c : R → Bool) : List R :=
-  sp.static ++ (sp.cond.filter (fun p => c p.1)).map (·.2)
+  if sp.failWhen.any c then [] else sp.static ++ (sp.cond.filter (fun p => c p.1)).map (·.2)
 
 end Koreo.HotReload
